@@ -33,6 +33,12 @@ type Op struct {
 	Tail  []Task `json:"tail,omitempty"`
 	// FilterDuring: the operation another goroutine issues while the Filter callback runs
 	C *Op `json:"c,omitempty"`
+	// Return: how the handler lays its three result slices out in memory (their VALUES are Head /
+	// After / Tail in every case; the queue has to copy what it keeps): 0 three exact slices,
+	// 1 consecutive cuts of one backing array (each cut's capacity extends over the next ones),
+	// 2 each slice with spare capacity, 3 a buffer the handler owns and reuses for every call.
+	// After the result has been applied the handler overwrites everything it owns with a poison task.
+	Share int `json:"share,omitempty"`
 }
 
 type Input struct {
@@ -77,6 +83,38 @@ func un(t task.Task) (res *Task) {
 	return &Task{Id: id, Uniq: u}
 }
 
+const poisonId = 99
+
+// layout builds the handler's result slices as op.Share says; owned = everything the handler
+// may write to afterwards.
+func layout(op Op, reuse *[]task.Task) (head, after, tail []task.Task, owned [][]task.Task) {
+	switch op.Share {
+	case 1:
+		all := append(append(mkAll(op.Head), mkAll(op.After)...), mkAll(op.Tail)...)
+		all = append(make([]task.Task, 0, len(all)+4), all...)
+		h, a := len(op.Head), len(op.After)
+		head, after, tail = all[:h], all[h:h+a], all[h+a:]
+		owned = [][]task.Task{all}
+	case 2:
+		spare := func(ts []task.Task) []task.Task { return append(make([]task.Task, 0, len(ts)+16), ts...) }
+		head, after, tail = spare(mkAll(op.Head)), spare(mkAll(op.After)), spare(mkAll(op.Tail))
+		owned = [][]task.Task{head, after, tail}
+	case 3:
+		if *reuse == nil {
+			*reuse = make([]task.Task, 0, 64)
+		}
+		head = append((*reuse)[:0], mkAll(op.Head)...)
+		after, tail = mkAll(op.After), mkAll(op.Tail)
+		owned = [][]task.Task{*reuse}
+	default:
+		head, after, tail = mkAll(op.Head), mkAll(op.After), mkAll(op.Tail)
+	}
+	if len(head) == 0 && op.Share != 1 && op.Share != 3 {
+		head = nil
+	}
+	return
+}
+
 func mkAll(ts []Task) []task.Task {
 	var r []task.Task
 	for _, t := range ts {
@@ -106,6 +144,7 @@ func Run(in Input) Observation {
 	started := false
 	var running task.Task
 	inHandler := false
+	var reuse []task.Task
 	var out Observation
 	crashed := ""
 
@@ -239,14 +278,22 @@ func Run(in Input) Observation {
 				}
 			case "Return":
 				if inHandler {
-					res := queue.TaskResult{Status: queue.TaskStatus(op.St), HeadTasks: mkAll(op.Head),
-						AfterTasks: mkAll(op.After), TailTasks: mkAll(op.Tail),
+					head, after, tail, owned := layout(op, &reuse)
+					res := queue.TaskResult{Status: queue.TaskStatus(op.St), HeadTasks: head,
+						AfterTasks: after, TailTasks: tail,
 						AfterHandle: func() { applied <- struct{}{} }}
 					results <- res
 					inHandler = false
 					running = nil
 					select {
 					case <-applied:
+						// the handler's memory is the handler's: it goes on using it
+						for _, o := range owned {
+							o = o[:cap(o)]
+							for i := range o {
+								o[i] = mk(Task{Id: poisonId, Uniq: poisonId})
+							}
+						}
 					case <-time.After(3 * time.Second):
 						crashed = "result not applied within 3s (worker died?)"
 					}
@@ -483,6 +530,9 @@ func (g *gen) sequence(n, dupPct, absentPct int) Input {
 			o.Head = g.tasks(g.r.Intn(3)*g.r.Intn(2), &nextId, dupPct, present)
 			o.After = g.tasks(g.r.Intn(3)*g.r.Intn(2), &nextId, dupPct, present)
 			o.Tail = g.tasks(g.r.Intn(3)*g.r.Intn(2), &nextId, dupPct, present)
+			if len(o.Head)+len(o.After)+len(o.Tail) > 0 && g.r.Chance(50) {
+				o.Share = 1 + g.r.Intn(3)
+			}
 			for _, t := range append(append(append([]Task{}, o.Head...), o.After...), o.Tail...) {
 				present = append(present, t.Id)
 			}
@@ -503,6 +553,12 @@ func Corpus() []Input {
 		// after-tasks of a task that was removed while it was being handled
 		{Ops: []Op{{Kind: "Start"}, {Kind: "AddLast", T: tp(1, 1)}, {Kind: "AddLast", T: tp(2, 2)}, {Kind: "Remove", Id: 1},
 			{Kind: "Return", St: "Success", After: []Task{{3, 3}, {4, 4}}, Head: []Task{{5, 5}}, Tail: []Task{{6, 6}}}}},
+		// the handler's result slices share memory with each other / are reused by the handler: the queue copies
+		{Ops: []Op{{Kind: "Start"}, {Kind: "AddLast", T: tp(1, 1)}, {Kind: "AddLast", T: tp(2, 2)},
+			{Kind: "Return", St: "Success", Head: []Task{{3, 3}}, Tail: []Task{{4, 4}}, Share: 1}, {Kind: "Return", St: "Success"}}},
+		{Ops: []Op{{Kind: "Start"}, {Kind: "AddLast", T: tp(1, 1)}, {Kind: "AddLast", T: tp(2, 2)}, {Kind: "AddLast", T: tp(3, 3)},
+			{Kind: "Return", St: "Success", Head: []Task{{4, 4}}, Share: 3}, {Kind: "Return", St: "Keep", Head: []Task{{5, 5}}, Share: 3},
+			{Kind: "Return", St: "Success", Head: []Task{{6, 6}, {7, 7}}, After: []Task{{8, 8}}, Share: 2}}},
 		// atomicity: an operation issued by another goroutine while a Filter callback runs takes effect after the Filter
 		{Ops: []Op{{Kind: "AddLast", T: tp(1, 1)}, {Kind: "AddLast", T: tp(2, 2)}, {Kind: "AddLast", T: tp(3, 3)},
 			{Kind: "FilterDuring", Keep: []int{1, 3}, C: &Op{Kind: "AddLast", T: tp(4, 4)}}}},
